@@ -314,7 +314,14 @@ def _parse_marker_var(tokenizer: Tokenizer) -> MarkerVar:
     if tokenizer.check("VARIABLE"):
         return process_env_var(tokenizer.read().text.replace(".", "_"))
     elif tokenizer.check("QUOTED_STRING"):
-        return process_python_str(tokenizer.read().text)
+        token = tokenizer.read()
+        try:
+            return process_python_str(token.text)
+        except (SyntaxError, ValueError):
+            tokenizer.raise_syntax_error(
+                "Invalid quoted string",
+                span_start=token.position,
+            )
     else:
         tokenizer.raise_syntax_error(
             message="Expected a marker variable or quoted string"
